@@ -2,6 +2,7 @@ SPECIFICATION FairSpec
 CONSTANTS
   GseLenMax = 15
   TotalLenMax = 31
+  ExtLens = {0, 4}
   PduLens = {0,1,5,12,13,14,20,29,30,31,32}
   Bufs = {0,3,6,7,12,13,14,17,22}
   AllFills = FALSE
